@@ -1,4 +1,6 @@
 \* behaviours for the conformance harness (single-form shape: DHW, system, devices); run with -simulate
+\* StaleFirstRead = FALSE: the library as it is since 2f05aca (an expired message is not reported, not even once);
+\* StampSteps: equal stamps (two frames of one serial read) and stamps that step back (clock put back)
 SPECIFICATION SimSpec
 CONSTANTS
   Ctx = {1, 2, 3}
@@ -9,8 +11,10 @@ CONSTANTS
   LifeS <- LifeS1Def
   LifeA <- LifeA1Def
   Grace = 2
-  StaleFirstRead = TRUE
+  StaleFirstRead = FALSE
   InFlight = FALSE
+  StampSteps <- StepsAnyDef
+  CrossCodeOpen = TRUE
   MaxEvents = 14
   MaxMsgs = 14
 INVARIANT FreshA
